@@ -264,8 +264,14 @@ pub fn triage(prop: &str, tier: Tier) {
         .par_iter()
         .map(|l| {
             let Some(v) = vs.iter().find(|v| util::sha_hex(&v.input) == l["sha"].as_str().unwrap_or("") && v.oracle == l["oracle"].as_str().unwrap_or("")) else { return false };
-            match crate::classifiers::remove_comments_with_keys(&v.input, &key_refs) {
-                Some(x) if x != v.input => crate::classifiers::recheck(v, &x) == Some(false),
+            match crate::classifiers::remove_comments_with_keys(&v.input, &key_refs, false) {
+                Some(x) if x != v.input && crate::classifiers::recheck(v, &x) == Some(false) => {
+                    match crate::classifiers::remove_comments_with_keys(&v.input, &key_refs, true) {
+                        Some(c) if c == v.input => true,
+                        Some(c) => crate::classifiers::recheck(v, &c) == Some(true),
+                        None => false,
+                    }
+                }
                 _ => false,
             }
         })
